@@ -37,6 +37,13 @@ def gen_api_case(rng: random.Random, tier: str):
         sigmas.append(txt)
     nmax = 4 if tier == "quick" else 7
     edits = [gen_edit(rng) for _ in range(rng.randint(1, nmax))]
+    if rng.random() < 0.25:
+        # unfix / fix / unfix (or the reverse) of one block or value of $OMEGA / $SIGMA
+        which, i = rng.choice(["omega", "omega", "sigma"]), rng.randrange(1000)
+        seq = [["unfix", which, i], ["fix", which, i], ["unfix", which, i]]
+        if rng.random() < 0.5:
+            seq = seq[1:] + [["fix", which, i]]
+        edits = (edits[:1] if rng.random() < 0.5 else []) + seq[:rng.choice([1, 2, 3])]
     return {"kind": "api", "thetas": thetas, "omegas": omegas, "sigmas": sigmas, "edits": edits, "seed": rng.randrange(1 << 30)}
 
 
@@ -429,6 +436,16 @@ def _replay_block_update(rec, args, res, drv, k, tags):
     tags.append("k:api-omega-block-update")
     if [c04.sig(v) for v in mv] != [c04.sig(v) for v in raw]:
         k.append(f"update_random_variable_records -> OmegaRecord.update({str(rec.root)!r}, {cov}): model {mv} code {raw}")
+    # token level (FIX handling, xn split, spelling)
+    fixes = {f for _, f in args}
+    if len(fixes) == 1:
+        newfix = fixes.pop()
+        vals = [U.oparam_wire(v, newfix) for v in U.block_raw_values(cov, size, sd, corr)]
+        m = drv.ask(["bupdate", U.brec_wire(rec.root), vals, bool(newfix)])
+        want = ["ok", U.norm(U.brec_wire(res.root))]
+        tags.append("k:api-omega-block-tokens")
+        if m != want:
+            k.append(f"update_random_variable_records -> OmegaRecord.update(BLOCK {str(rec.root)!r}, fix={newfix}): model {str(m)[:500]} code {str(want)[:500]}")
 
 
 def theta_item_table(code):
@@ -642,8 +659,10 @@ def run_api_case(case, drv):
                 o, nw = s0["thetas"][pos:pos + n], s1["thetas"][pos:pos + n]
                 pos += n
                 never_changed = all([t[1:] for t in h[pos - n:pos]] == [t[1:] for t in o] for h in history)
+                l1 = f0["low"] if (f1["low"] is None and o[0][2] == -INF) else f1["low"]
+                u1 = f0["up"] if (f1["up"] is None and o[0][3] == INF) else f1["up"]
                 if never_changed and [t[1:] for t in o] == [t[1:] for t in nw] and \
-                        (f0["init"], f0["low"], f0["up"]) != (f1["init"], f1["low"], f1["up"]):
+                        (f0["init"], f0["low"], f0["up"]) != (f1["init"], l1, u1):
                     only_bounds = f0["init"] == f1["init"]
                     mon.append({"cls": "theta-unchanged-bound-respelled" if only_bounds else "theta-frame",
                                 "what": f"after {applied}: theta item {f0['text']!r} became {f1['text']!r} although its parameter did not change"})
